@@ -31,4 +31,44 @@ for cp in range(0x80, 0x110000):
                 pass
             except Exception as e:  # noqa
                 bad.append({"what": f"URL.build(authority={a!r}) raised {type(e).__name__}", "class": "exception-kind:" + type(e).__name__, "input": repr(a)})
-print(json.dumps({"failures": bad[:10], "code_points_with_delimiter_in_nfkc": len(hits), "checked": 0x110000 - 0x80 - 2048, "sample": [hex(x) for x in hits[:8]]}))
+# Second enumeration: EVERY code point whose NFKC form contains an ASCII character outside [A-Za-z0-9.-] (anything that could
+# be structural or odd once IDNA's compatibility mapping has turned it into ASCII).  Such an authority is either rejected, or the
+# URL it produces behaves like any other: its string form parses again to an equal URL with the same raw host ("encoding is
+# idempotent"), and a cache-free twin (pickle) reads the same raw host / port as the constructor pre-computed.
+import pickle
+
+odd_hits = 0
+for cp in range(0x80, 0x110000):
+    if 0xD800 <= cp <= 0xDFFF:
+        continue
+    ch = chr(cp)
+    nf = unicodedata.normalize("NFKC", ch)
+    if not any(ord(c) < 128 and not (c.isalnum() or c in "-.") for c in nf):
+        continue
+    odd_hits += 1
+    for kind, s in (("URL", "http://a%sb.com/p" % ch), ("URL", "http://%s/" % ch), ("URL", "http://u@a%s:81/" % ch), ("build", "a%sb.com" % ch), ("build", "u@x%s:81" % ch)):
+        try:
+            u = URL(s) if kind == "URL" else URL.build(scheme="http", authority=s)
+        except ValueError:
+            continue
+        except Exception as e:  # noqa
+            bad.append({"what": f"{kind}({s!r}) raised {type(e).__name__}", "class": "exception-kind:" + type(e).__name__, "input": repr(s)})
+            continue
+        call = f"URL({s!r})" if kind == "URL" else f"URL.build(scheme='http', authority={s!r})"
+        try:
+            txt = str(u)
+            v = URL(txt)
+            if not (v == u and v.raw_host == u.raw_host and str(v) == txt):
+                bad.append({"what": f"{call} = {txt!r} (NFKC(U+{cp:04X}) = {nf!r}) does not parse back to itself: raw_host {u.raw_host!r} -> {v.raw_host!r}, str {str(v)!r}",
+                            "class": "nfkc-host-reparse", "input": repr(s)})
+                continue
+        except ValueError as e:
+            bad.append({"what": f"{call} is accepted (NFKC(U+{cp:04X}) = {nf!r}) but its string form {txt!r} is rejected when parsed again: {e}", "class": "nfkc-host-reparse", "input": repr(s)})
+            continue
+        try:
+            t = pickle.loads(pickle.dumps(u))
+            if (t.raw_host, t.explicit_port) != (u.raw_host, u.explicit_port):
+                bad.append({"what": f"{call}: pre-computed raw_host/port {(u.raw_host, u.explicit_port)!r}, cache-free twin {(t.raw_host, t.explicit_port)!r}", "class": "nfkc-host-twin", "input": repr(s)})
+        except ValueError as e:
+            bad.append({"what": f"{call}: the cache-free twin cannot split the stored authority: {e}", "class": "nfkc-host-twin", "input": repr(s)})
+print(json.dumps({"failures": bad[:10], "code_points_with_odd_ascii_in_nfkc": odd_hits, "code_points_with_delimiter_in_nfkc": len(hits), "checked": 0x110000 - 0x80 - 2048, "sample": [hex(x) for x in hits[:8]]}))
